@@ -562,7 +562,7 @@ def run(ctx: Any, prog: Program) -> None:
     # ---- Z15: file data in a numbered archive is read at the offset recorded for it ---------------------------------------------------------
     # Overwrites and removals leave dead blocks in the numbered archives and new data is appended, so the live blocks are neither contiguous
     # nor in directory order: a read of `<entry>.arch_len` bytes is right only directly after `seek(<entry>.offset)` on the same file object.
-    ctx.rule('C13.Z15', 'every read of an entry\'s arch_len bytes from an archive file follows a seek to that entry\'s offset', floor=2)
+    ctx.rule('C13.Z15', 'every read of an entry\'s arch_len bytes from an archive file follows a seek to that entry\'s offset', floor=1)
     n15 = 0
     for q15, fl15 in vpk.all_funcs().items():
         for f15 in fl15:
@@ -588,7 +588,7 @@ def run(ctx: Any, prog: Program) -> None:
                         break
                 ctx.check('C13.Z15', ok15, vpk, c15, f'{q15} reads `{U(c15)}` without first seeking `{fobj}` to `{ent15}.offset`: it takes whatever bytes the file position happens to be at - after an overwrite or a removal the '
                           'blocks of a numbered archive are neither contiguous nor in order, so these are another file\'s (or dead) bytes', func=q15, text=f'{q15}: `{U(c15)}` after seek({ent15}.offset)')
-    ctx.shape('C13.Z15', n15 >= 2, vpk, vpk.tree, f'{n15} reads of arch_len bytes found (FileInfo.read and FileInfo.verify confirmed by hand)', text='archive reads')
+    ctx.shape('C13.Z15', n15 >= 1, vpk, vpk.tree, f'{n15} reads of arch_len bytes found (FileInfo.read and FileInfo.verify confirmed by hand; a shared helper makes it one)', text='archive reads')
 
     # ---- Z11: nothing is read back from the directory file after write_dirfile has truncated it ------------------------------------------
     ctx.rule('C13.Z11', 'write_dirfile: what is used after the directory file was opened for writing is already in memory (no property that reads the file lazily)', floor=1)
